@@ -295,6 +295,13 @@ def finish(pid, tier, seed, part, t0, rule, nontrivial_count=None, exhaustive=No
             kinds[kk] = kinds.get(kk, 0) + 1
     if kinds:
         print("  violation kinds: " + ", ".join("%s=%d" % kv for kv in sorted(kinds.items())))
+        shown = set()
+        for vs in classes.values():
+            for v in vs:
+                kk = "%s/%s" % (v["sig"].get("kind"), v["sig"].get("backend"))
+                if kk not in shown and len(shown) < 16:
+                    shown.add(kk)
+                    print("  e.g. [%s] %s" % (kk, v["text"][:420]))
     inconclusive = list(part.inconclusive)
     if part.evals < min_evals and not n_viol:
         inconclusive.append("only %d evaluations observed (floor %d)" % (part.evals, min_evals))
